@@ -65,6 +65,21 @@ func VerifHalfConns(c *Conn) (in, out uintptr) {
 	return uintptr(unsafe.Pointer(&c.in)), uintptr(unsafe.Pointer(&c.out))
 }
 
+// VerifSetSeq moves the sequence number of the sending half connection of w and of the receiving half
+// connection of r (the two ends of one direction) to seq, and reports it through VerifSink as event
+// "setseq", so that a harness can watch the record layer where the counter carries into its upper bytes
+// without sending 2^32 records first.
+func VerifSetSeq(w, r *Conn, seq uint64) {
+	for _, hc := range []*halfConn{&w.out, &r.in} {
+		hc.Lock()
+		binary.BigEndian.PutUint64(hc.seq[:], seq)
+		if VerifSink != nil {
+			VerifSink(VerifEvent{HC: uintptr(unsafe.Pointer(hc)), Ev: "setseq", Seq: seq})
+		}
+		hc.Unlock()
+	}
+}
+
 // Peer fault points: they let a harness make THIS endpoint misbehave when it plays the adversary
 // towards the endpoint under test (which always runs unmodified paths).  VerifFault is nil unless armed;
 // it receives the connection, the site name and the honest bytes, and returns the bytes to use
